@@ -168,6 +168,10 @@ def interleaved(ctx, pool):
 
 
 def run(ctx):
+    # statements that are large in one dimension (long lists, chains, many tokens, deep nesting, many statements): the property has no size bound
+    for s in [s for s in gen.scale_texts(ctx.rng)]:
+        oracle(ctx, s)
+    ctx.count('scale texts')
     ins = inputs_for(ctx)
     impl_lines = [oracle(ctx, s) for s in ins]
     if ctx.model.available:
